@@ -217,6 +217,17 @@ def handle (fields : List String) : List String :=
         match o with
         | some c => String.ofList c
         | none => "<undecodable>")
+  | "bundle-doc" :: name :: fields =>
+      -- fields: file name, content, … (in directory order): the bytes the bundling script is predicted to write and
+      -- what the hosted loader is predicted to get out of them
+      let rec dfiles (fs : List String) : List Cpf.Rules.Bundle.File :=
+        match fs with
+        | n :: c :: rest => { name := n.toList, content := c.toList } :: dfiles rest
+        | _ => []
+      let bytes := Cpf.Rules.Bundle.bundleBytes name.toList (dfiles fields)
+      match Cpf.Rules.Bundle.loadHosted bytes with
+      | some rules => String.ofList bytes :: rules.map String.ofList
+      | none => [String.ofList bytes, "<undecodable>"]
   | "jsondoc" :: fields =>
       -- fields: preorder of a document: "S" text | "N" digits | "A" n | "O" n (then n times: key, value)
       -- answer: the compact encoding, whether it decodes back to the same document
